@@ -274,6 +274,8 @@ let ghost log_in = builder.sink.log@; let ghost pos_in = builder.pos as int;''',
 }''')])),
     ])
     U.trusted_decl = []
-    U.assumed_dep = ['derive(Default) for Input: empty vectors', 'str::ends_with(char) as an uninterpreted test (D14)']
+    U.file(SH).guard_rest('not under contract in this unit; text pinned (contracts/trusted_hashes.json)')
+    U.file(IN).guard_rest('not under contract in this unit; text pinned (contracts/trusted_hashes.json)')
+    U.assumed_dep = ['derive(Default) for Input: empty vectors', 'str::ends_with(char): the D32 stand-in']
     U.not_verified = ['Builder::enter (take_while/count, iterator argument), n_attached_trivias, is_outer/is_inner (str patterns), do_float_split (dead: no FloatSplit step is ever produced)']
     return U
